@@ -237,6 +237,7 @@ def os_run_sequence(ns, nregs, ops):
     cur = {i: [] for i in range(nregs)}
     trace, req = [], []
     fail = None
+    kept = []  # mutable arguments of earlier operations: [kind, object, snapshot, op index]
     for k, op in enumerate(ops):
         n = op["op"]
         alist = [op["arg"]] if n == "new" and op["arg"] is not None else list(op.get("args", []))
@@ -372,9 +373,90 @@ def os_run_sequence(ns, nregs, ops):
                 now = list(o) if kind in ("list", "tuple") else sorted(o)
                 if now != snap:
                     fail = fail or (os_classify(op, argorders, "argument-mutated"), "%s arg %s -> %s" % (kind, snap, now), k)
+        # ---- independence of results and arguments (no shared mutable state in either direction):
+        # an argument of an EARLIER operation must never change afterwards ...
+        for kind, o, snap, k0 in kept:
+            now = list(o) if kind == "list" else sorted(o)
+            if now != snap:
+                fail = fail or (os_classify(op, argorders, "earlier-argument-mutated"), "%s argument of op %d: %s -> %s" % (kind, k0, snap, now), k)
+        # ... and mutating this operation's arguments now must not be visible in any set
+        if not fail:
+            for a, o in zip(alist, argobjs):
+                if a[0] == "list":
+                    o.append(POOL[(len(o) + k) % len(POOL)])
+                    o.reverse()
+                    kept.append(["list", o, list(o), k])
+                elif a[0] == "set":
+                    o.symmetric_difference_update({POOL[k % len(POOL)], POOL[(k + 1) % len(POOL)]})
+                    kept.append(["set", o, sorted(o), k])
+                elif a[0] == "dict":
+                    o[POOL[k % len(POOL)]] = 2
+                    o.pop(next(iter(o)))
+                    kept.append(["dict", o, sorted(o), k])
+            try:
+                for i, o in enumerate(regs):
+                    l, st = os_state(o)
+                    if l != cur[i] or sorted(l) != st:
+                        fail = fail or (os_classify(op, argorders, "state-shared-with-argument"), "after mutating the argument afterwards reg %d = %s;%s expected %s" % (i, l, st, cur[i]), k)
+            except Exception as e:  # noqa: BLE001
+                fail = fail or (os_classify(op, argorders, "state-shared-with-argument"), repr(e), k)
         if fail:
             break
     return trace, req, fail
+
+
+def unique_list_check(ns, form, seq):
+    """unique_list(iterable): value, type, and FRESHNESS of the result — it must be a new list,
+    independent of the argument under later mutation of either side.  Returns (result, alias flag, failure)"""
+    src = list(seq)
+    if form == "list":
+        arg = src
+    elif form == "tuple":
+        arg = tuple(src)
+    elif form == "iter":
+        arg = iter(src)
+    elif form == "gen":
+        arg = (x for x in src)
+    elif form == "dict":
+        arg = dict.fromkeys(src, 1)
+    elif form == "set":
+        arg = set(src)
+    else:
+        raise ValueError(form)
+    exp = ref_first_occ(list(arg)) if form in ("dict", "set") else ref_first_occ(seq)
+    try:
+        got = ns.unique_list(arg)
+    except Exception as e:  # noqa: BLE001 - the code under test raising is an observation
+        return "E:" + exc_name(e), False, ["unique-list-raises", "unique_list(%s %r) raised %r" % (form, seq, e)]
+    fail = None
+    alias = got is arg
+    if type(got) is not list or got != exp:
+        fail = ["unique-list-first-occurrence", "unique_list(%s %r) = %r" % (form, seq, got)]
+    elif alias:
+        fail = ["unique-list-result-aliases-argument", "unique_list(%s %r) returned the argument object itself" % (form, seq)]
+    else:
+        snap = list(got)
+        if form == "list":
+            arg.append(99)
+            arg.reverse()
+        elif form == "dict":
+            arg[99] = 1
+        elif form == "set":
+            arg.add(99)
+        if got != snap:
+            fail = ["unique-list-result-aliases-argument", "mutating the argument afterwards changed the result %r -> %r" % (snap, got)]
+        else:
+            before = list(arg) if form == "list" else None
+            got.append(98)
+            if before is not None and list(arg) != before:
+                fail = ["unique-list-result-aliases-argument", "mutating the result changed the argument"]
+            got.pop()
+        # a second call must build another fresh object
+        if fail is None and form in ("list", "tuple"):
+            again = ns.unique_list(arg)
+            if again is got or again is arg:
+                fail = ["unique-list-result-aliases-argument", "second call returned an existing object"]
+    return got, alias, fail
 
 
 def os_gen_arg(rng, nregs, allow_reg=True, maxlen=4, nelem=6):
@@ -732,6 +814,17 @@ def is_run_sequence(ns, nregs, ops):
                 fail = fail or (is_classify(op, "order" if i == tgt else "other-object-changed"), "reg %d = %s expected %s" % (i, l, exp), k)
             elif any((pool[j] in s) != (j in exp) for j in range(len(pool))):
                 fail = fail or (is_classify(op, "contains-disagrees-with-iteration"), "reg %d" % i, k)
+        # independence: the argument is not mutated, and mutating it afterwards is invisible
+        if not fail and isinstance(argobj, list):
+            if [idx[id(o)] for o in argobj] != argids:
+                fail = fail or (is_classify(op, "argument-mutated"), "list argument %s -> %s" % (argids, [idx[id(o)] for o in argobj]), k)
+            else:
+                argobj.append(pool[k % len(pool)])
+                argobj.reverse()
+                del argobj[1:]
+                for i, s in enumerate(regs):
+                    if [idx[id(o)] for o in s] != cur[i]:
+                        fail = fail or (is_classify(op, "state-shared-with-argument"), "reg %d changed when the argument was mutated afterwards" % i, k)
         if fail:
             break
     return trace, req, fail
